@@ -239,81 +239,109 @@ def source_phase_factor(chk, mod):
 
 
 def from_disk_chopper(chk, mod):
-    """expansion over pulses: time = p/f_pulse + open(K); every (slit, turn of the disk) exactly once"""
+    """expansion over several pulses: the rotations of the disk are enumerated (turns -1..N-1, N = the rotations that span npulses pulse
+    periods), so every (slit, rotation) appears exactly once -- proved against the contract of time_offset_angle_at_beam"""
     cc = kit.load('tof.chopper_cascade')
     chk.function('tof.chopper_cascade', 'Chopper.from_disk_chopper')
     pre = 'tof.chopper_cascade:Chopper.from_disk_chopper'
     npulses = z3.Int('n_pulses')
     nrep = z3.Int('n_rep')
-
-    class FakeDisk:
-        axle_position = arg('axle', 'length', dtype=VEC, unit=NAMED['m'])
-
-        def _t(self, name):
-            K = core.fresh_int(f'turn_{name}')
-            core.assume(z3.And(K >= -1, K < nrep))
-            core.ctx().log.append(('turn', name, K))
-            # contract of time_offset_open/close (proved above): c_name + K * period  (period = 1/|f|)
-            # unit: 1 / unit(frequency) -- whatever unit the chopper frequency was given in
-            return Var(Buf(R(f'c_{name}') + z3.ToReal(K) * R('period'), symbolic_unit('k_f', NAMED['Hz']) ** -1, F64), ('slit',))
-
-        def time_offset_open(self, *, pulse_frequency):
-            return self._t('open')
-
-        def time_offset_close(self, *, pulse_frequency):
-            return self._t('close')
+    uf = symbolic_unit('k_f', NAMED['Hz'])
+    ua = symbolic_unit('k_ang', NAMED['rad'])
     ufp = symbolic_unit('k_fp', NAMED['Hz'])
-    fp = arg('fp', 'freq', unit=ufp, kind='pos')
-    base = [fp.val > 0, npulses >= 1, nrep >= 1, R('period') > 0]
-    paths = chk.explore(lambda: cc.Chopper.from_disk_chopper(FakeDisk(), pulse_frequency=arg('fp', 'freq', unit=ufp, kind='pos'), npulses=SymInt(npulses)),
-                        base=base, catch=CATCH)
+
+    class FakeDisk(core.MockBase):
+        axle_position = arg('axle', 'length', dtype=VEC, unit=NAMED['m'])
+        frequency = arg('f', 'freq', unit=uf, kind='real')
+        slit_begin = arg('begin', 'angle', unit=ua, kind='real', dims=('slit',))
+        slit_end = arg('end', 'angle', unit=ua, kind='real', dims=('slit',))
+
+        @property
+        def is_clockwise(self):
+            d = core.decide(z3.Bool('is_clockwise'), 'is_clockwise', free=True)
+            core.ctx().log.append(('clockwise', d))
+            return d
+
+        def _source_phase_factor(self, pulse_frequency):
+            # contract (proved above): refuses out-of-phase frequencies, else returns n = round(max(|f|/f_pulse, 1)) >= 1
+            core.ctx().log.append(('phase-check', pulse_frequency))
+            core.assume(nrep >= 1)
+            return SymInt(nrep)
+
+        def time_offset_angle_at_beam(self, *, angle, n_repetitions=1):
+            name = f'call{len([e for e in core.ctx().log if e[0] == "angle-at-beam"])}'
+            K = core.fresh_int(f'turn_{name}')
+            N = n_repetitions.t if isinstance(n_repetitions, SymInt) else z3.IntVal(int(n_repetitions))
+            core.assume(z3.And(K >= -1, K < N))        # contract (proved above): one entry per slit and turn -1..N-1
+            r = Var(Buf(R(f'c_{name}') + z3.ToReal(K) * R('period'), uf ** -1, F64), ('slit',))
+            core.ctx().log.append(('angle-at-beam', angle.buf.tag, N, K, r))
+            return r
+    mkfp = lambda: arg('fp', 'freq', unit=ufp, kind='pos')
+    fp = mkfp()
+    f = FakeDisk.frequency
+    base = [fp.val > 0, f.val != 0, npulses >= 1]
+    paths = chk.explore(lambda: cc.Chopper.from_disk_chopper(FakeDisk(), pulse_frequency=mkfp(), npulses=SymInt(npulses)), base=base, catch=CATCH)
+    absf = z3.If(f.si >= 0, f.si, -f.si)
+    senses = set()
     for i, p in enumerate(paths):
         ok = p.kind == 'return'
         chk.decided(f'{pre}/no-raise[path{i}]', ok, detail=f'{type(p.value).__name__}: {p.value}' if not ok else '')
         if not ok:
             continue
         hy = hyps_of(p, base)
-        ar = [e for e in p.log if e[0] == 'arange']
-        tr = {e[1]: e[2] for e in p.log if e[0] == 'turn'}
-        chk.decided(f'{pre}/one-pulse-range[path{i}]', len(ar) == 1 and set(tr) == {'open', 'close'})
-        if len(ar) != 1:
-            continue
-        Pk = ar[0][4]
-        T = 1 / fp.si
-        kt = 1 / z3.Real('k_f')
-        chk.prove(f'{pre}/pulse-index-range-0..npulses-1[path{i}]', hy, z3.And(Pk >= 0, Pk < npulses))
-        chk.prove(f'{pre}/time_open==p/f_pulse+open(turn)[path{i}]', hy, p.value.time_open.si == z3.ToReal(Pk) * T + (R('c_open') + z3.ToReal(tr['open']) * R('period')) * kt)
-        chk.prove(f'{pre}/time_close==p/f_pulse+close(turn)[path{i}]', hy, p.value.time_close.si == z3.ToReal(Pk) * T + (R('c_close') + z3.ToReal(tr['close']) * R('period')) * kt)
-        chk.decided(f'{pre}/1-d-result-along-the-slit-dim[path{i}]', p.value.time_open.dims == ('slit',) and p.value.time_close.dims == ('slit',), detail=str(p.value.time_open.dims))
-        chk.prove(f'{pre}/distance==|axle_position|[path{i}]', hy, z3.And(p.value.distance.val >= 0, p.value.distance.val * p.value.distance.val == kit.norm2(FakeDisk.axle_position.val)))
-    # each opening of the disk appears exactly once: two different (pulse, turn) pairs never denote the same opening.
-    # With n = f/f_pulse a positive integer (n turns per pulse) one pulse period is n rotation periods.
-    p1, p2, k1, k2, n = (z3.Int(x) for x in ('p1', 'p2', 'k1', 'k2', 'n_turns_per_pulse'))
-    per = R('period')
-    hyp = [per > 0, n >= 1, p1 >= 0, p2 >= 0, p1 < npulses, p2 < npulses, k1 >= -1, k2 >= -1, k1 < n, k2 < n,
-           z3.ToReal(p1) * z3.ToReal(n) * per + z3.ToReal(k1) * per == z3.ToReal(p2) * z3.ToReal(n) * per + z3.ToReal(k2) * per]
-    o = chk.prove(f'{pre}/each-opening-once(no-duplicates-across-pulses)', hyp, z3.And(p1 == p2, k1 == k2), timeout=60,
-                  meta={'inputs': {}, 'duplicate_probe': True})
-    o.meta['duplicate_probe'] = True
-    o.model = {'known_shape': 'duplicate-across-pulses'}
-    # every listed interval is an opening of the disk: the openings of one slit are {c + K'*period : K' integer}, so the pulse
-    # offset p/f_pulse must be a whole number of rotation periods
+        calls = [e for e in p.log if e[0] == 'angle-at-beam']
+        cw = [e[1] for e in p.log if e[0] == 'clockwise']
+        checks = [e for e in p.log if e[0] == 'phase-check']
+        if len(calls) != 2 or not cw or len(set(cw)) != 1:
+            raise core.Unsupported('from_disk_chopper is not built from two calls of time_offset_angle_at_beam and one sense of rotation')
+        senses.add(cw[0])
+        tag = 'clockwise' if cw[0] else 'anticlockwise'
+        chk.decided(f'{pre}/refuses-out-of-phase-frequencies(phase check on the pulse frequency)[{tag}/path{i}]',
+                    len(checks) >= 1 and all(c[1].buf.tag == 'fp' for c in checks))
+        want_open, want_close = ('begin', 'end') if cw[0] else ('end', 'begin')
+        chk.decided(f'{pre}/opens-at-the-leading-edge,closes-at-the-trailing-edge[{tag}/path{i}]', (calls[0][1], calls[1][1]) == (want_open, want_close),
+                    detail=str((calls[0][1], calls[1][1])))
+        chk.decided(f'{pre}/time_open,time_close-are-those-results,1-d-along-the-slit-dim[{tag}/path{i}]',
+                    p.value.time_open is calls[0][4] and p.value.time_close is calls[1][4] and p.value.time_open.dims == ('slit',))
+        N = calls[0][2]
+        chk.prove(f'{pre}/same-rotations-for-open-and-close[{tag}/path{i}]', hy, calls[1][2] == N)
+        # N == ceil(npulses * n / m): n rotations per pulse (phase factor), m = round(max(f_pulse/|f|, 1)) pulses per rotation
+        rounds = [e for e in p.log if e[0] == 'pyround']
+        ceils = [e for e in p.log if e[0] == 'pyceil']
+        if len(rounds) > 1 or len(ceils) != 1:
+            raise core.Unsupported('from_disk_chopper: number of rotations is not ceil(npulses * n / round(max(f_pulse/|f|, 1)))')
+        inv = fp.si / absf
+        if rounds:
+            m_t = z3.ToReal(rounds[0][2])
+            chk.prove(f'{pre}/pulses-per-rotation==round(max(f_pulse/|f|,1))[{tag}/path{i}]', hy, rounds[0][1] == z3.If(inv >= 1, inv, 1), timeout=60)
+        else:       # max(...) returned the literal 1 on this path
+            m_t = z3.RealVal(1)
+            chk.prove(f'{pre}/pulses-per-rotation==round(max(f_pulse/|f|,1))[{tag}/path{i}]', hy, inv <= 1, timeout=60)
+        chk.prove(f'{pre}/rotations==ceil(npulses*n/m)[{tag}/path{i}]', hy,
+                  z3.And(N == ceils[0][2], ceils[0][1] * m_t == z3.ToReal(npulses) * z3.ToReal(nrep)), timeout=60)
+        chk.prove(f'{pre}/distance==|axle_position|[{tag}/path{i}]', hy, z3.And(p.value.distance.val >= 0, p.value.distance.val * p.value.distance.val == kit.norm2(FakeDisk.axle_position.val)))
+    chk.decided(f'{pre}/both-senses-of-rotation-explored', senses == {True, False}, detail=str(senses))
+    # consequences, over the callee contract "entry (slit, K) is the opening of that slit in turn K, K = -1..N-1":
+    per, c = R('period'), R('c_slit')
+    K1, K2, N_, n, m = (z3.Int(x) for x in ('K1', 'K2', 'N_rot', 'n_per_pulse', 'm_per_rotation'))
+    chk.prove(f'{pre}/each-opening-once', [per > 0, K1 != K2], c + z3.ToReal(K1) * per != c + z3.ToReal(K2) * per)
+    chk.prove(f'{pre}/listed-intervals-are-openings-of-consecutive-turns(none-missing-in-between)', [per > 0, K1 >= -1, K1 < N_ - 1],
+              z3.Exists([K2], z3.And(K2 >= -1, K2 < N_, K2 == K1 + 1)))
+    # the N rotations span the npulses pulse periods: f = n*f_pulse (m == 1) or f = f_pulse/m (n == 1), N = ceil(npulses*n/m)
     Tp = R('pulse_period')
-    chk.prove(f'{pre}/listed-intervals-are-openings[f = n*f_pulse]', [per > 0, n >= 1, Tp == z3.ToReal(n) * per],
-              z3.ToReal(p1) * Tp + z3.ToReal(k1) * per == z3.ToReal(p1 * n + k1) * per)
-    for m in (2, 3, 4):
-        kk = z3.Int('k_any')
-        o2 = chk.prove(f'{pre}/listed-intervals-are-openings[f = f_pulse/{m}]', [per > 0, m * Tp == per, p1 >= 0, p1 < npulses, npulses >= 1],
-                       z3.Exists([kk], z3.ToReal(p1) * Tp + z3.ToReal(k1) * per == z3.ToReal(kk) * per), timeout=30, meta={'inputs': {}, 'subharmonic_probe': True})
-        o2.meta['subharmonic_probe'] = True
+    chk.prove(f'{pre}/rotations-span-the-pulses[f = n*f_pulse]', [per > 0, n >= 1, Tp == z3.ToReal(n) * per, npulses >= 1, N_ == npulses * n],
+              z3.ToReal(N_) * per == z3.ToReal(npulses) * Tp)
+    chk.prove(f'{pre}/rotations-span-the-pulses[f = f_pulse/m]', [Tp > 0, m >= 1, per == z3.ToReal(m) * Tp, npulses >= 1,
+                                                                   z3.ToReal(N_) * z3.ToReal(m) >= z3.ToReal(npulses), (z3.ToReal(N_) - 1) * z3.ToReal(m) < z3.ToReal(npulses)],
+              z3.And(z3.ToReal(N_) * per >= z3.ToReal(npulses) * Tp, (z3.ToReal(N_) - 1) * per < z3.ToReal(npulses) * Tp))
 
 
 # ---- slit validation: bounded-exhaustive grid against the arcs-on-a-circle spec ------------------------------------------------------
-def arcs_overlap(slits):
-    """do two slits share a point of the circle? (closed arcs of width < 2 pi, angles in degrees)"""
+def arcs_overlap(slits, strict=False):
+    """do two slits share a point of the circle (closed arcs), resp. with strict=True more than an end point?  Angles in degrees."""
     for (b1, e1), (b2, e2) in itertools.combinations(slits, 2):
         for k in (-2, -1, 0, 1, 2):
-            if b1 <= e2 + 360 * k and b2 + 360 * k <= e1:
+            if (b1 < e2 + 360 * k and b2 + 360 * k < e1) if strict else (b1 <= e2 + 360 * k and b2 + 360 * k <= e1):
                 return True
     return False
 
@@ -335,6 +363,8 @@ def validation_failures(limit=5):
             begin = sc.array(dims=['slit'], values=[float(c[0]) for c in combo], unit='deg')
             end = sc.array(dims=['slit'], values=[float(c[1]) for c in combo], unit='deg')
             want_reject = arcs_overlap(combo)
+            if want_reject and not arcs_overlap(combo, strict=True):
+                continue        # slits that merely touch: the statement speaks of overlapping slits; either answer is accepted
             try:
                 dc._check_edges(begin, end)
                 rejected = False
@@ -463,6 +493,18 @@ def simulation_failures(n, seed, limit=3):
                 prob = f'expanded over {npul} pulses: disk not open inside a listed interval'
                 if ratio < 1:
                     desc['known_shape'] = 'subharmonic-expansion'
+            else:
+                # nothing missing: the listed intervals cover every opening between the first and the last one
+                lo2, hi2 = o2.min(), c2.max()
+                for t in np.linspace(lo2, hi2, 6001)[1:-1]:
+                    if is_open(t) and not np.any((o2 - 1e-12 <= t) & (t <= c2 + 1e-12)):
+                        prob = f'expanded over {npul} pulses: disk is open at {t} inside the covered span but no listed interval contains it'
+                        break
+                # as many rotations as it takes to span the npul pulse periods (plus the one that may be finishing when the first
+                # pulse starts); where the span lies relative to the pulse depends on the phase and is not part of the property
+                turns = int(np.ceil(npul * ratio - 1e-6)) + 1
+                if prob is None and len(o2) != nslits * turns:
+                    prob = f'expanded over {npul} pulses: {len(o2)} openings listed for {nslits} slits and {turns} rotations'
         if prob:
             fails.append({**desc, 'problem': prob})
             if len(fails) >= limit:
